@@ -416,7 +416,8 @@ def fd_pairing(rep, fn):
 def bitfields(rep, fn):
     ex = {"DIS": "TPDATA_F_DISABLED"}
     def mask_expr(getter):
-        return " | ".join("((%s) ? (1ull << %d) : 0ull)" % (getter % ("(1ull << %d)" % b), b) for b in range(64))
+        # bit b belongs to the field when setting it changes what the getter returns (the getter may be biased: fd + 1)
+        return " | ".join("(((%s) != (%s)) ? (1ull << %d) : 0ull)" % (getter % ("(1ull << %d)" % b), getter % "0ull", b) for b in range(64))
     ex["TFD"] = mask_expr("(unsigned)TPDATA_TFD_GET(%s)")
     ex["EV"] = mask_expr("TPDATA_EVENT_GET(%s)")
     for e in range(4):
